@@ -155,4 +155,32 @@ def c04_6(c: Ctx) -> None:
     c10_4(c)
 
 
+
+def check_blocking_wait_unreachable_with_lock(c: Ctx) -> None:
+    u = await_coro(c)
+    g = c.cfg(u)
+    self_ = c.unit(MOD, 'BaseEvent.__await__').params()[0]
+    sig = f'{self_}.event_completed_signal.is_set()'
+    waits = [n for n in g.live_nodes() if n.kind in ('stmt', 'return') and any(isinstance(x, ast.Await) and isinstance(x.value, ast.Call) and call_name(x.value) in ('wait', 'wait_for', 'join', 'acquire')
+                                                                            and 'sleep' not in U(x.value) for h in q.node_exprs(n) for x in ast.walk(h))]
+    waits = [n for n in waits if not any(call_name(x) == 'process_event' for x in q.node_calls(n))]
+    c.floor(len(waits), 1, 'blocking waits in the await coroutine')
+    atoms = {'inside_handler_context.get()', 'holds_global_lock.get()', sig}
+    tests = {U(n.test) for n in own_nodes(u.node) if isinstance(n, (ast.If, ast.While))}
+    facts = Facts(lambda a: a in atoms or a in tests or a.isidentifier(), sticky_true=[sig], cg=c.cg, unit=u, taskvars=TASKVARS)
+    guard = f'not inside_handler_context.get() or not holds_global_lock.get() or {sig}'
+    for n in waits:
+        p = q.guard_search(g, n, guard, facts)
+        if p is None:
+            c.ok(where(u, n.ast), 'the blocking wait is reached only when not (inside a handler and holding the lock), or the event is already complete')
+        else:
+            c.fail(u, f'blocking wait `{n.text(60)}` reachable while inside a handler and holding the processing lock', 'the handler blocks on the completion signal while it holds the lock nothing else can take: the awaited event is never processed (deadlock until the handler times out)', node=n.ast, witness=c.path(g.entry, p))
+
+
+@ob('C04.7', 'DOM', 'the blocking wait on the completion signal is never reached by a handler that holds the processing lock (unless the event is already complete): the in-handler branch '
+    'is taken for every event, whatever else is known about it')
+def c04_7(c: Ctx) -> None:
+    check_blocking_wait_unreachable_with_lock(c)
+
+
 OBLIGATIONS = ob.obs
